@@ -76,6 +76,7 @@ ASSUME = [
     "every vnaconv_* function is replaced by a recording contract generated from vnaconv.h (identity, arguments, writes its output cells); what those functions compute is C04",
     "vnadata_set_format by contract stub (format strings: C06 territory)",
     "A->B->C == A->C is not checked here; it follows from C04's relation lemma in exact arithmetic",
+    "the complex.h shim makes sizeof(double complex) == sizeof(double): a byte count computed with the wrong one of the two (seed C05-zin-memset-half) is invisible; compiling this unit without the shim trips a CBMC 6.11 internal invariant (complex member 'imag' in get_fz0_vector)",
     "bounded shapes (<= 3x3, <= 2 frequencies); see C15 for the shared assumptions (shim complex, union=struct, error stub)",
 ]
 TRUSTED = ["CBMC 6.11", "gen/gen_conv_stubs.py (mechanical stub generator)", "harness/vnadata/wf_vnadata.h"]
